@@ -20,7 +20,7 @@ PROP = "C12"
 NEED_JSONSCHEMA = True
 SHARDS = {"quick": 8, "thorough": 16}
 TIME_CAP = {"quick": 75, "thorough": 900}
-REQUIRED = ["graphs", "d_agree_accept", "d_agree_reject", "d_conv_rejects", "d_value_error_caught", "d_value_error_propagates",
+REQUIRED = ["lsp_deserialization_checks", "lsp_serialization_checks", "graphs", "d_agree_accept", "d_agree_reject", "d_conv_rejects", "d_value_error_caught", "d_value_error_propagates",
             "multi_later_alt_wins", "multi_first_wins_overlap", "multi_all_rejected", "s_agree", "schema_des_equal", "schema_ser_equal",
             "schema_own_annotations_merged", "unsupported_expected", "locality_object_field", "dyn_through_container", "dyn_through_ml",
             "field_conv_applied", "sub_conv_applied", "placement:reg", "placement:def", "placement:dyn", "placement:dyn_noreg",
@@ -1254,6 +1254,108 @@ def family_recursive(env, g):
         prog.unload()
 
 
+LSP_SRC = """
+class LB:
+    def __init__(self, v, tag):
+        self.v, self.tag = v, tag
+    def __eq__(self, o):
+        return type(o) is type(self) and (o.v, o.tag) == (self.v, self.tag)
+    __hash__ = None
+    def __repr__(self):
+        return f"{type(self).__name__}({self.v!r}, {self.tag!r})"
+
+class LS(LB):
+    pass
+
+def lb_reg_in(s: str) -> LB:
+    return LB(s, "reg-base")
+def ls_reg_in(s: str) -> LS:
+    return LS(s, "reg-sub")
+def lb_reg_out(b: LB) -> str:
+    return "reg-base:" + str(b.v)
+def ls_reg_out(b: LS) -> str:
+    return "reg-sub:" + str(b.v)
+def ls_from_int(i: int) -> LS:
+    return LS(i, "dyn-sub")
+def lb_from_int(i: int) -> LB:
+    return LB(i, "dyn-base")
+def lb_to_int(b: LB) -> int:
+    return 1000 + len(str(b.v))
+def ls_to_int(b: LS) -> int:
+    return 2000 + len(str(b.v))
+CLS = {"LB": LB, "LS": LS}
+"""
+
+
+def family_lsp(env, g):
+    """Liskov rule of dynamic conversions (docs/conversions.md + examples/dynamic_conversions_lsp.py): a dynamic deserializer applies
+    when its target is the visited class or a *subclass* of it, a dynamic serializer when its source is the visited class or a
+    *superclass* of it; otherwise the registered conversion of the visited class is used.  Direct expectations, no model."""
+    (apischema, cache, deserialization_method, serialization_method, converters, deserialization_schema, serialization_schema) = api()
+    from typing import Dict, List, Optional
+    from apischema import deserializer, serializer
+
+    rng = env.rng
+    try:
+        prog = load_source(PRELUDE12 + LSP_SRC)
+    except Exception as e:
+        env.count("program_load_failed:" + type(e).__name__)
+        return
+    mod = prog.module
+    LB, LS = mod.LB, mod.LS
+    wrap_name = rng.choice(["bare", "list", "optional", "dict"])
+    wrapT = {"bare": lambda t: t, "list": lambda t: List[t], "optional": lambda t: Optional[t], "dict": lambda t: Dict[str, t]}[wrap_name]
+    wrapd = {"bare": lambda d: d, "list": lambda d: [d], "optional": lambda d: d, "dict": lambda d: {"k": d}}[wrap_name]
+    unwrap = {"bare": lambda v: v, "list": lambda v: v[0], "optional": lambda v: v, "dict": lambda v: v["k"]}[wrap_name]
+    try:
+        for f in (mod.lb_reg_in, mod.ls_reg_in):
+            deserializer(f)
+        for f in (mod.lb_reg_out, mod.ls_reg_out):
+            serializer(f)
+        cache.reset()
+        feat = {"family": "lsp", "wrap": wrap_name}
+        wit0 = {"program": prog.source, "family": "lsp", "wrap": wrap_name}
+        # (visited class, dynamic deserializer, datum, expected: ("ok", instance) | "reject")
+        dcases = [
+            ("LB", "ls_from_int", 3, ("ok", LS(3, "dyn-sub"))), ("LB", "ls_from_int", "x", "reject"),       # target LS is a subclass of LB: applies
+            ("LS", "lb_from_int", 3, "reject"), ("LS", "lb_from_int", "x", ("ok", LS("x", "reg-sub"))),      # target LB is not an LS: registered one is used
+            ("LB", "lb_from_int", 3, ("ok", LB(3, "dyn-base"))), ("LS", "ls_from_int", 3, ("ok", LS(3, "dyn-sub"))),  # exact class
+            ("LB", None, "x", ("ok", LB("x", "reg-base"))), ("LS", None, "x", ("ok", LS("x", "reg-sub"))),
+        ]
+        for cname, conv, d, exp in dcases:
+            kw = {"conversion": getattr(mod, conv)} if conv else {}
+            o = harness.call(apischema.deserialize, wrapT(getattr(mod, cname)), wrapd(d), **kw)
+            env.count("lsp_deserialization_checks")
+            env.case("lsp", "des", wrap_name, cname, conv, repr(d))
+            ok = (o.kind == "verr") if exp == "reject" else (o.kind == "ok" and unwrap(o.value) == exp[1])
+            if not ok:
+                env.violation({**feat, "kind": "lsp-deserializer-selection", "visited": cname, "dynamic_target": {"ls_from_int": "LS", "lb_from_int": "LB", None: None}[conv],
+                               "expected": "reject" if exp == "reject" else "ok"}, {**wit0, "call": f"deserialize({wrap_name}[{cname}], {d!r}, conversion={conv})", "observed": o.brief(), "expected": repr(exp)})
+            sch = harness.call(deserialization_schema, wrapT(getattr(mod, cname)), **kw)
+            env.count("lsp_schema_checks")
+            want_type = "integer" if (conv and exp != "reject" and type(d) is int) or (conv and exp == "reject" and type(d) is str) else "string"
+            other = "integer" if want_type == "string" else "string"
+            if sch.kind != "ok" or f'"{want_type}"' not in json.dumps(sch.value) or f'"{other}"' in json.dumps(sch.value):
+                env.violation({**feat, "kind": "lsp-deserialization-schema", "visited": cname, "dynamic": conv}, {**wit0, "observed": sch.brief(), "expected_type": want_type})
+        scases = [
+            ("LS", "lb_to_int", LS("ab", "t"), 1002),           # source LB is a superclass of LS: applies
+            ("LB", "ls_to_int", LB("ab", "t"), "reg-base:ab"),  # source LS is not a superclass of LB: registered one is used
+            ("LB", "lb_to_int", LB("ab", "t"), 1002), ("LS", "ls_to_int", LS("ab", "t"), 2002),
+            ("LB", None, LB("ab", "t"), "reg-base:ab"), ("LS", None, LS("ab", "t"), "reg-sub:ab"),
+        ]
+        for cname, conv, v, exp in scases:
+            kw = {"conversion": getattr(mod, conv)} if conv else {}
+            o = harness.call(apischema.serialize, wrapT(getattr(mod, cname)), wrapd(v), **kw)
+            env.count("lsp_serialization_checks")
+            env.case("lsp", "ser", wrap_name, cname, conv)
+            if not (o.kind == "ok" and unwrap(o.value) == exp):
+                env.violation({**feat, "kind": "lsp-serializer-selection", "visited": cname, "dynamic_source": {"lb_to_int": "LB", "ls_to_int": "LS", None: None}[conv]},
+                              {**wit0, "call": f"serialize({wrap_name}[{cname}], {v!r}, conversion={conv})", "observed": o.brief(), "expected": repr(exp)})
+    finally:
+        cleanup(mod)
+        prog.unload()
+
+
 # ---------------------------------------------------------------- driver
 def one_graph(env, j, ndata):
     rng = env.rng
@@ -1293,7 +1395,7 @@ def one_graph(env, j, ndata):
         prog.unload()
 
 
-PARTS = ("graph", "inherit", "identity", "recursive")
+PARTS = ("graph", "inherit", "identity", "recursive", "lsp")
 
 
 def run_part(env, part, j, ndata=22):
@@ -1307,7 +1409,7 @@ def run_part(env, part, j, ndata=22):
         one_graph(env, j, ndata)
     else:
         g = gen_types.Gen(env.rng, max_depth=2, recursion=False)
-        {"inherit": family_inherit, "identity": family_identity, "recursive": family_recursive}[part](env, g)
+        {"inherit": family_inherit, "identity": family_identity, "recursive": family_recursive, "lsp": family_lsp}[part](env, g)
 
 
 def tag_origin(env):
@@ -1328,6 +1430,8 @@ def run(env):
         run_part(env, "graph", j)
         if j % 6 in (0, 2, 4):
             run_part(env, PARTS[1 + (j % 6) // 2], j)
+        if j % 24 == 1:
+            run_part(env, "lsp", j)
 
 
 def finish_coverage(cov, counters, tier):
